@@ -9,15 +9,21 @@ open OdfModel.Dom OdfModel.DomDoc
 theorem edGet_edSet (d : List (Nat × List Id)) (q q' : Nat) (v : List Id) :
     edGet (edSet d q v) q' = if q' = q then v else edGet d q' := by
   induction d with
-  | nil => simp [edSet, edGet]; split <;> simp_all [eq_comm]
+  | nil =>
+    by_cases h : q' = q
+    · subst h; simp [edSet, edGet]
+    · simp [edSet, edGet, h, Ne.symm h]
   | cons a r ih =>
     obtain ⟨k, w⟩ := a
     simp only [edSet]
     by_cases hk : k = q
-    · subst hk; simp only [if_true, edGet]; split <;> simp_all [eq_comm]
+    · subst hk
+      by_cases h : q' = k
+      · subst h; simp [edGet]
+      · simp [edGet, h, Ne.symm h]
     · simp only [hk, if_false, edGet, ih]
       by_cases h2 : k = q'
-      · subst h2; simp [Ne.symm hk, hk]
+      · subst h2; simp [hk]
       · simp [h2]
 
 end OdfModel.Props.C09
